@@ -306,6 +306,43 @@ def check_timelimit(ctx, idx):
         ctx.phi_fail("timelimit_episode_has_exactly_N_steps", {"N": N, "lengths": ep_lengths})
 
 
+def check_declared_spaces_order(ctx):
+    """every non-observation wrapper ABOVE an observation-space-changing wrapper advertises that wrapper's
+    observation space (and every non-action wrapper above an action-space-changing one its action space)"""
+    envs = [("TabularBox", random_tabular(ctx.rng, box=True)), ("Tabular", random_tabular(ctx.rng)),
+            ("Pendulum", Pendulum()), ("ContinuousMountainCar", ContinuousMountainCar()), ("MountainCar", MountainCar())]
+    for label, env0 in envs:
+        inners = [("FlattenObservation", W.FlattenObservation(env0))]
+        osp = env0.observation_space
+        if bool(np.isfinite(np.asarray(osp.low)).all() and np.isfinite(np.asarray(osp.high)).all()):
+            inners.append(("RescaleObservation", W.RescaleObservation(env0)))
+        for iname, inner in inners:
+            outers = [("Identity", W.Identity(inner)), ("TimeLimit", W.TimeLimit(inner, 5)),
+                      ("ClipReward", W.ClipReward(inner, -1.0, 1.0)),
+                      ("TransformAction", W.TransformAction(inner, lambda a: a, inner.action_space))]
+            if hasattr(inner.action_space, "low") and bool(np.isfinite(np.asarray(inner.action_space.low)).all()):
+                outers += [("ClipAction", W.ClipAction(inner)), ("RescaleAction", W.RescaleAction(inner))]
+            for oname, outer in outers:
+                case = {"kind": "declared-spaces-order", "env": label, "stack": f"{oname}({iname}({label}))"}
+                ctx.case(case, True)
+                ctx.count("declared-spaces:action-or-passthrough-layer-above-observation-layer")
+                if not (outer.observation_space == inner.observation_space):
+                    ctx.phi_fail("observation_space_passes_through_non_observation_layers",
+                                 {**case, "declared": repr(outer.observation_space)[:200],
+                                  "inner": repr(inner.observation_space)[:200]}, key="layer-obs-space:" + oname)
+        if hasattr(env0.action_space, "low") and bool(np.isfinite(np.asarray(env0.action_space.low)).all()):
+            inner = W.RescaleAction(env0, -3.0, 5.0) if label != "TabularBox" else W.RescaleAction(env0)
+            for oname, outer in [("Identity", W.Identity(inner)), ("TimeLimit", W.TimeLimit(inner, 5)),
+                                 ("FlattenObservation", W.FlattenObservation(inner)), ("ClipReward", W.ClipReward(inner, -1.0, 1.0))]:
+                case = {"kind": "declared-spaces-order", "env": label, "stack": f"{oname}(RescaleAction({label}))"}
+                ctx.case(case, True)
+                ctx.count("declared-spaces:observation-or-passthrough-layer-above-action-layer")
+                if not (outer.action_space == inner.action_space):
+                    ctx.phi_fail("action_space_passes_through_non_action_layers",
+                                 {**case, "declared": repr(outer.action_space)[:200],
+                                  "inner": repr(inner.action_space)[:200]}, key="layer-act-space:" + oname)
+
+
 def check_timelimit_large(ctx):
     """exactness for very long limits (beyond float32's 2^24 integer range): the limit's truncation is
     raised at count N and not at N-1, for states placed directly at those counts and reached by one
@@ -466,4 +503,5 @@ def run(ctx):
         check_timelimit(ctx, i)
         ctx.gc()
     check_timelimit_large(ctx)
+    check_declared_spaces_order(ctx)
     check_adapters(ctx)
